@@ -30,6 +30,7 @@ CONSTANTS AutoSet,    \* endpoints configured with auto-accept
           MaxOpen,    \* open commands endpoint X may issue
           MaxOpenY,   \* ... endpoint Y
           MaxClose, MaxCut, MaxRec, MaxFail, MaxSub, MaxStall,
+          MaxFDF,     \* dial failures of dials this protocol did not start (broadcast by the manager to every protocol)
           KnownTags,  \* tags of panic arms / defects already recorded as findings
           Mut,        \* "none", or a seeded defect for the negative configurations of the self-test
           EarlyVal,   \* TRUE: a validation may be answered before the events queued behind the request are read
@@ -67,7 +68,7 @@ Init ==
           sw |-> [e \in E |-> FALSE],                 \* an open command was ignored while a remote-initiated substream was being handled                   \* id of the validation request of the substream now being validated
           conn |-> "up", ep |-> 1,
           alive |-> [e \in E |-> TRUE],               \* the protocol loop has not panicked
-          nOpen |-> [e \in E |-> 0], nClose |-> [e \in E |-> 0], nCut |-> 0, nRec |-> 0, nFail |-> 0, nStall |-> 0,
+          nOpen |-> [e \in E |-> 0], nClose |-> [e \in E |-> 0], nCut |-> 0, nRec |-> 0, nFail |-> 0, nStall |-> 0, nFDF |-> 0,
           kf |-> {}]
   \* both endpoints start connected (ConnectionEstablished already handled: state Closed)
   /\ mon = [e \in E |-> MonEnv(MonInit({Other(e)}, e \in AutoSet), Other(e), "up")]
@@ -318,7 +319,13 @@ ProtoTransport(e) ==
             [] ev.t = "in" -> OnInbound(x1, e, ev.sub)
             [] ev.t = "out" -> OnOutbound(x1, e, ev.sid, ev.sub)
             [] ev.t = "fail" -> OnOpenFailure(x1, e, ev.sid)
-            [] ev.t = "dialfail" -> (IF x1.st[e].k = "dialing" THEN Rep(SetSt(x1, e, None), e, "openfail") ELSE x1))
+            \* on_dial_failure: only a peer that is being dialed by this protocol is affected; any other state is put
+            \* back as it was (seeded defect: the state is replaced by a fresh Closed one, dropping what it held)
+            [] ev.t = "dialfail" ->
+                 (IF x1.st[e].k = "dialing" THEN Rep(SetSt(x1, e, None), e, "openfail")
+                  ELSE IF Mut = "dialfail_wipes_state" /\ x1.st[e].k # "none" THEN
+                       SetSt(DropState(IF x1.st[e].k = "open" THEN SignalTask(x1, e, x1.st[e].task) ELSE x1, e), e, Closed(0))
+                  ELSE x1))
 
 ProtoValidation(e) ==
   /\ w.alive[e] /\ ~B1(w, e) /\ ~B2(w, e) /\ ~B4(w, e) /\ B5(w, e)
@@ -385,6 +392,13 @@ EnvReconnect ==
   /\ w' = [w EXCEPT !.conn = "up", !.ep = @ + 1, !.nRec = @ + 1, !.tq = [e \in E |-> Append(@[e], [t |-> "est"])]]
   /\ mon' = [e \in E |-> MonEnv(mon[e], Other(e), "up")]
   /\ Note([a |-> "reconnect"])
+\* TransportManager broadcasts DialFailure to all protocols: a dial of the application (or of another protocol, or an
+\* own earlier one overtaken by an inbound connection) fails while this protocol has the peer in any state
+ForeignDialFailure(e) ==
+  /\ w.nFDF < MaxFDF
+  /\ ~(\E i \in DOMAIN w.tq[e] : w.tq[e][i].t = "dialfail")
+  /\ Step([w EXCEPT !.tq[e] = Append(@, [t |-> "dialfail"]), !.nFDF = @ + 1])
+
 EnvDialFail(e) ==
   /\ w.conn = "down" /\ w.st[e].k = "dialing" /\ ~(\E i \in DOMAIN w.tq[e] : w.tq[e][i].t = "dialfail")
   /\ w.nRec >= MaxRec
@@ -392,7 +406,7 @@ EnvDialFail(e) ==
 
 \* every internal step that needs no timer
 Fast == \/ \E e \in E : ProtoHs(e) \/ ProtoShutdown(e) \/ ProtoTransport(e) \/ ProtoValidation(e) \/ ProtoCommand(e)
-                       \/ CtDetect(e) \/ CtNotify(e) \/ CtReport(e) \/ EnvDialFail(e)
+                       \/ CtDetect(e) \/ CtNotify(e) \/ CtReport(e) \/ EnvDialFail(e) \/ ForeignDialFailure(e)
         \/ EnvOpenOk \/ EnvOpenFail
 
 \* timers arm: "peer didn't answer": outbound open, no inbound substream
@@ -431,7 +445,7 @@ UOpen(e) ==
 UClose(e) ==
   /\ w.nClose[e] < MaxClose /\ w.hopen[e]
   /\ w' = [w EXCEPT !.cmdq[e] = Append(@, "close"), !.nClose[e] = @ + 1]
-  /\ mon' = [mon EXCEPT ![e] = MonClose(@, Other(e), "sent")]
+  /\ mon' = [mon EXCEPT ![e] = MonClose(@, Other(e), "sent"), ![Other(e)] = MonEnv(@, e, "rclose")]
   /\ Note([a |-> "close", e |-> e])
 UVal(e, v) ==
   /\ w.hval[e] # 0
@@ -450,7 +464,9 @@ UPull(e) ==
                        !.vf[e] = IF k = "validate" /\ w.hval[e] # 0
                                    THEN [i \in DOMAIN @ |-> IF @[i].id = w.hval[e] /\ @[i].r = "wait" THEN [@[i] EXCEPT !.r = "reject"] ELSE @[i]]
                                    ELSE @]
-     /\ mon' = [mon EXCEPT ![e] = MonEvent(@, Other(e), k)]
+     \* an open failure on one side may end a stream the other side has already reported: the environment tells it
+     /\ mon' = [mon EXCEPT ![e] = MonEvent(@, Other(e), k),
+                           ![Other(e)] = IF k = "openfail" THEN MonEnv(@, e, "rfault") ELSE @]
      /\ Note([a |-> "pull", e |-> e, k |-> k])
 
 Internal == \/ Fast \/ \E e \in E : ProtoTimer(e) \/ EnvTimeout(e)
